@@ -160,7 +160,8 @@ def produce(client_mod, c2, beacon, key, conf_name, kinds, seed):
 
                 client_mod.httpx.request = req
                 cb = rng.choice([0, 30, 32])
-                data = b"cb-%d-" % m["first"] + bytes(rng.randrange(256) for _ in range(rng.choice([0, 3, 33])))
+                # sizes around the AES block boundaries: 0..3 bytes of data make the smallest possible frame (one block)
+                data = rng.choice([b"", b"x", b"xyz", b"cb-%d-" % m["first"] + bytes(rng.randrange(256) for _ in range(rng.choice([0, 3, 33])))])
                 cl.send_callback(cb, data)
                 sent.append(("callback", m["first"], (cl.counter, cb, data)))
                 if nxt is not None and nxt["kind"] == "Q":
